@@ -6,6 +6,7 @@
 #pragma once
 #include "common.h"
 #include <functional>
+#include <map>
 #include <nano/dataset.h>
 #include <nano/dataset/iterator.h>
 #include <nano/datasource.h>
@@ -120,6 +121,19 @@ std::string to_bytes(const tobject& object)
     return out.str();
 }
 
+inline std::string hex_(const std::string& s)
+{
+    static const char* d = "0123456789abcdef";
+    std::string        o;
+    o.reserve(2 * s.size());
+    for (unsigned char c : s)
+    {
+        o.push_back(d[c >> 4]);
+        o.push_back(d[c & 15]);
+    }
+    return o;
+}
+
 // a weak learner serialised WITHOUT the factory type id (the read()/write() members alone)
 struct bare_wlearner_t
 {
@@ -140,6 +154,38 @@ inline int wlearner_kind(const wlearner_t& wlearner)
     return 9;
 }
 
+// a destination that has loaded `dest` reads the valid stream `bytes`: it must then serialise to exactly `bytes`.
+// The line is also an input of the stateful reader model (REUSE, see c15_stream.cpp)
+template <class tmake>
+void reuse_model(const std::string& spec, const tmake& make, const std::string& dest, const std::string& bytes,
+                 const std::string& info, const fail_t& fail)
+{
+    try
+    {
+        auto               used = make();
+        std::istringstream pin(dest);
+        if (!::nano::read(pin, used)) return;
+        std::istringstream in(bytes);
+        if (!::nano::read(in, used))
+        {
+            std::printf("REUSE %s | %s | %s | R | -\n", spec.c_str(), hex_(dest).c_str(), hex_(bytes).c_str());
+            fail("ROUNDTRIP-REUSED " + spec + " valid stream rejected by a used destination (" + info + ")");
+            return;
+        }
+        const auto again = to_bytes(used);
+        std::printf("REUSE %s | %s | %s | A | %s\n", spec.c_str(), hex_(dest).c_str(), hex_(bytes).c_str(), hex_(again).c_str());
+        if (again != bytes)
+        {
+            fail("ROUNDTRIP-REUSED " + spec + " the destination keeps stale state (" + info + ") dest hex=" + hex_(dest) +
+                 " written hex=" + hex_(bytes) + " re-serialized hex=" + hex_(again));
+        }
+    }
+    catch (const std::exception& e)
+    {
+        fail("ROUNDTRIP-REUSED " + spec + " exception: " + e.what());
+    }
+}
+
 // generic: serialise `object`, re-read it with `rd_obj` into a fresh object, compare predictions bit for bit
 template <class tobject, class tmake>
 void check_model(const std::string& spec, const tobject& object, const tmake& make, const dataset_t& dataset,
@@ -147,6 +193,14 @@ void check_model(const std::string& spec, const tobject& object, const tmake& ma
 {
     const auto bytes   = to_bytes(object);
     const auto samples = arange(0, dataset.samples());
+    // re-used destination: an object that has loaded the previously serialised object of this spec (stale state of another
+    // fitted model: other tensor shapes, other weak learner / node lists, other parameter values) reads this stream
+    {
+        static std::map<std::string, std::string> previous;
+        auto&                                     prev = previous[spec];
+        if (!prev.empty()) reuse_model(spec, make, prev, bytes, info, fail);
+        prev = bytes;
+    }
     try
     {
         auto               other = make();
@@ -342,6 +396,10 @@ inline void all_models(vh::rng_t& rng, const bool thorough, const process_t& pro
                 protos.emplace_back(wlearner_t::all().get("stump"));
                 fresh.prototypes(std::move(protos));
                 same_pool(fresh, "configured");
+                // the fitted model read into the configured one and back (other prototype pool, no weak learners, empty bias)
+                const auto make_g = [] { return gboost_model_t{}; };
+                reuse_model("gboost", make_g, to_bytes(fresh), to_bytes(model), info.str(), fail);
+                reuse_model("gboost", make_g, to_bytes(model), to_bytes(fresh), info.str(), fail);
             }
         }
     }
